@@ -240,6 +240,13 @@ def check_block(case):
         cls.append("nt:block-with-segwit-tx")
     if case.get("dups"):
         cls.append("nt:block-dup-tx")
+    t0 = txs[0]
+    if len(t0["ins"]) == 1 and t0["ins"][0]["txid"] == bytes(32) and t0["ins"][0]["vout"] == 0xFFFFFFFF:
+        cls.append("nt:block-starts-with-coinbase")
+        if hd["version"] >= 2:
+            cls.append("nt:block-version>=2-with-coinbase")
+        if t0["segwit"]:
+            cls.append("nt:block-coinbase-with-witness")
     feats = {x for t in txs for x in gen_tx.features(t)}
     for x in ("wit-item>=253", "script>=253", "script>=65536", "wit-item>=65536"):
         if x in feats:
@@ -292,12 +299,15 @@ def block_cases(draw, thorough):
     if draw(st.integers(0, 2)) == 0:
         # one transaction from the boundary-length grammar (scripts / witness items of 253+ and 65536+ bytes) at any position
         txs[draw(st.integers(0, len(txs) - 1))] = draw(gen_tx.tx_case("big", shapes=["few"]))
+    if draw(st.booleans()):
+        # what real blocks start with: a coinbase (null outpoint, height push + arbitrary miner data in its script)
+        txs[0] = draw(gen_tx.coinbase_case())
     dups = [draw(st.integers(0, 7)) for _ in range(max(0, n - 8))]
     if draw(st.integers(0, 3)) == 0:
         dups.append(draw(st.integers(0, 7)))
     return {
         "header": {
-            "version": draw(gen_tx.u32()),
+            "version": draw(st.sampled_from([1, 2, 3, 4, 0x20000000, 0x3FFFE000]) | gen_tx.u32()),
             "prev": draw(st.binary(min_size=32, max_size=32)).hex(),
             "merkle": draw(st.binary(min_size=32, max_size=32)).hex(),
             "time": draw(gen_tx.u32()),
@@ -400,7 +410,7 @@ def targets(tier):
         Target("coinbase", check_coinbase, strategy=lambda tier: coinbase_cases(), budget={"quick": 6000, "thorough": 120000},
                required=["nt:script-101", "nt:script-100", "nt:with-commitment", "reward:over", "reward:half", "nt:after-same-height-other-schedule"]),
         Target("block", check_block, strategy=lambda tier: block_cases(thorough), budget={"quick": 1500, "thorough": 30000},
-               required=["nt:block>=2-txs", "nt:block-with-segwit-tx", "nt:block-dup-tx", "nt:block-tx-wit-item>=253", "nt:block-tx-script>=253", "nt:block-tx-script>=65536", "nt:block-tx-wit-item>=65536"]),
+               required=["nt:block>=2-txs", "nt:block-with-segwit-tx", "nt:block-dup-tx", "nt:block-starts-with-coinbase", "nt:block-version>=2-with-coinbase", "nt:block-coinbase-with-witness", "nt:block-tx-wit-item>=253", "nt:block-tx-script>=253", "nt:block-tx-script>=65536", "nt:block-tx-wit-item>=65536"]),
         Target("mine-block", check_mine, strategy=lambda tier: mine_cases(), budget={"quick": 300, "thorough": 6000},
                required=["nt:mine-with-segwit"]),
     ]
